@@ -210,6 +210,8 @@ package keeper
 //@ func (k Keeper) AssignMembersForSigning
 //@ trusted
 //@ modifies Store_tss
+// (it fails for its own reasons - too few members, a missing nonce - never with the retry-limit error)
+//@ ensures err != types.ErrMaxSigningAttemptExceeded
 //@ ensures forall q Bz :: !iskey(types.DEStoreKey, q) && !iskey(types.DEQueueStoreKey, q) ==> Store_tss[q] == old(Store_tss)[q]
 //@ spec expirationsOf(s Store) []types.SigningExpiration = len(s[types.SigningExpirationsStoreKey]) == 0 ? zero("[]types.SigningExpiration") : dec(types.SigningExpirations, s[types.SigningExpirationsStoreKey]).SigningExpirations
 
@@ -224,6 +226,9 @@ package keeper
 //@ ensures  wfSignings(Store_tss)
 //@ ensures  forall id Int :: old(has(Store_tss, types.SigningStoreKey(id))) ==> has(Store_tss, types.SigningStoreKey(id))
 //@ ensures  err == nil ==> old(has(Store_tss, types.SigningStoreKey(signingID)))
+// the configured number of attempts is fully available: "max attempt exceeded" is returned ONLY when the new attempt
+// number really is beyond MaxSigningAttempt (attempt MaxSigningAttempt itself is still allowed)
+//@ ensures  err == types.ErrMaxSigningAttemptExceeded ==> old(signingAt(Store_tss, signingID)).CurrentAttempt + 1 > old(tssParams(Store_tss)).MaxSigningAttempt
 //@ ensures  err == nil ==> (let a = old(signingAt(Store_tss, signingID)).CurrentAttempt + 1 in a <= old(tssParams(Store_tss)).MaxSigningAttempt && signingAt(Store_tss, signingID).CurrentAttempt == a && signingAt(Store_tss, signingID).Status == types.SIGNING_STATUS_WAITING)
 //@ ensures  err == nil ==> (let a = old(signingAt(Store_tss, signingID)).CurrentAttempt + 1 in signingAt(Store_tss, signingID).ID == signingID && signingAt(Store_tss, signingID).GroupID == old(signingAt(Store_tss, signingID)).GroupID && signingAt(Store_tss, signingID).Message == old(signingAt(Store_tss, signingID)).Message)
 //@ ensures  err == nil ==> (let a = old(signingAt(Store_tss, signingID)).CurrentAttempt + 1 in has(Store_tss, types.SigningAttemptStoreKey(signingID, a)) && attemptAt(Store_tss, signingID, a).ExpiredHeight == ctx.BlockHeight() + old(tssParams(Store_tss)).SigningPeriod && attemptAt(Store_tss, signingID, a).Attempt == a && attemptAt(Store_tss, signingID, a).SigningID == signingID)
@@ -455,3 +460,40 @@ package keeper
 //@ modifies Store_tss
 //@ ensures err == nil ==> Store_tss == store(old(Store_tss), types.ParamsKey, enc(p)) && 1 <= p.SigningPeriod && p.SigningPeriod <= MaxInt64 && p.MaxSigningAttempt <= MaxInt64
 //@ ensures err != nil ==> Store_tss == old(Store_tss)
+
+// ---- C04: cleaning up one group's round-3 data must not touch another group's --------------------------------------
+// (the confirm records are what stops a member from confirming twice: losing another group's records lets a cheater
+// replay its confirm and push that group to ACTIVE before the complaint against it arrives)
+//@ func (k Keeper) DeleteConfirms
+//@ modifies Store_tss
+//@ ensures forall q Bz :: !(iskey(types.ConfirmStoreKey, q) && keyarg(types.ConfirmStoreKey, q, 0) == groupID) ==> Store_tss[q] == old(Store_tss)[q]
+//@ loop 0: invariant 0 <= itpos(iterator) && itpos(iterator) <= itlen(iterator)
+//@ loop 0: invariant forall q Bz :: !(iskey(types.ConfirmStoreKey, q) && keyarg(types.ConfirmStoreKey, q, 0) == groupID) ==> Store_tss[q] == old(Store_tss)[q]
+
+// ---- C04: what the signing daemons are told to do -------------------------------------------------------------------
+// The member a group has for an address (list search: abstract), and "the member still owes this group its message of
+// the current round". The pending-groups query must report a group for an address EXACTLY on that condition, judged
+// per group: a daemon that is told a group is pending although its message is in re-runs the round with fresh secrets,
+// which turns an honest member into one whose shares no longer match its commitments.
+//@ spec memberOf(s Store, g Int, a Str) types.Member uninterpreted
+//@ spec memberErr(s Store, g Int, a Str) Int uninterpreted
+//@ func (k Keeper) GetMemberByAddress
+//@ trusted
+//@ ensures err == memberErr(Store_tss, groupID, address) && (err == nil ==> result == memberOf(Store_tss, groupID, address))
+//@ spec owes(s Store, g Int, m Int) Bool =
+//@      (groupAt(s, g).Status == types.GROUP_STATUS_ROUND_1 && !has(s, types.Round1InfoStoreKey(g, m)))
+//@   || (groupAt(s, g).Status == types.GROUP_STATUS_ROUND_2 && !has(s, types.Round2InfoStoreKey(g, m)))
+//@   || (groupAt(s, g).Status == types.GROUP_STATUS_ROUND_3 && !has(s, types.ConfirmStoreKey(g, m)) && !has(s, types.ComplainsWithStatusStoreKey(g, m)))
+//@ func (q queryServer) PendingGroups
+//@ may_panic calls
+//@ requires wfGroups(Store_tss)
+//@ ensures err == nil
+//@ ensures forall j :: 0 <= j && j < len(result.PendingGroups) ==> (let g = result.PendingGroups[j] in
+//@        lastExpiredGroup(Store_tss) < g && g <= groupCount(Store_tss) && memberErr(Store_tss, g, req.Address) == 0 && owes(Store_tss, g, memberOf(Store_tss, g, req.Address).ID))
+//@ ensures forall g Int :: lastExpiredGroup(Store_tss) < g && g <= groupCount(Store_tss) && memberErr(Store_tss, g, req.Address) == 0 && owes(Store_tss, g, memberOf(Store_tss, g, req.Address).ID)
+//@        ==> (exists j :: 0 <= j && j < len(result.PendingGroups) && result.PendingGroups[j] == g)
+//@ loop 0: invariant lastExpired + 1 <= gid && gid <= groupCount + 1 && lastExpired == lastExpiredGroup(Store_tss) && groupCount == groupCount(Store_tss) && groupCount < MaxUint64
+//@ loop 0: invariant forall j :: 0 <= j && j < len(pendingGroups) ==> (let g = pendingGroups[j] in
+//@        lastExpired < g && g < gid && memberErr(Store_tss, g, req.Address) == 0 && owes(Store_tss, g, memberOf(Store_tss, g, req.Address).ID))
+//@ loop 0: invariant forall g Int :: lastExpired < g && g < gid && memberErr(Store_tss, g, req.Address) == 0 && owes(Store_tss, g, memberOf(Store_tss, g, req.Address).ID)
+//@        ==> (exists j :: 0 <= j && j < len(pendingGroups) && pendingGroups[j] == g)
